@@ -653,6 +653,63 @@ def scale_factors(x, seed):
     return uni, per
 
 
+_TIES = []
+
+
+def bw_ties():
+    """(n, Fs, k, BW) with BW * n / Fs == k + 0.5 EXACTLY in binary64 (ties of np.round, k even and odd)"""
+    if not _TIES:
+        for n in range(16, 41):
+            for fs in (1.0, 2.0, 8.0, 0.5, 4.0):
+                for k in range(3, 8):
+                    if (k + 1) / 2.0 > n / 4.0:
+                        continue
+                    bw = (k + 0.5) * fs / n
+                    if bw * n / fs == k + 0.5 and Fraction(bw) * n / Fraction(fs) == Fraction(2 * k + 1, 2):
+                        _TIES.append((n, fs, k, bw))
+    return _TIES
+
+
+def force_bw_tie(rng, sc, idx):
+    """the BW keyword with BW*N/Fs exactly on a half-integer k + 0.5 (np.round goes to the even neighbour), k even
+    and odd, and one ulp of BW below / above the tie (only where the binary64 evaluation of BW*N/Fs falls on
+    the same side as its exact value — the model evaluates the expression exactly)"""
+    ties = bw_ties()
+    evens = [t for t in ties if t[2] % 2 == 0]
+    odds = [t for t in ties if t[2] % 2 == 1]
+    pool = evens if idx % 2 == 0 else odds
+    for _ in range(40):
+        n, fs, k, bw = pool[rng.randrange(len(pool))]
+        mode = (0, 0, 1, 2)[(idx // 2) % 4]
+        if mode == 1:
+            bw = float(np.nextafter(bw, 0.0))
+        elif mode == 2:
+            bw = float(np.nextafter(bw, np.inf))
+        fl = bw * n / fs
+        ex = Fraction(bw) * n / Fraction(fs)
+        half = Fraction(2 * k + 1, 2)
+        if (fl == k + 0.5) != (ex == half) or (fl < k + 0.5) != (ex < half):
+            continue
+        lead = sc["shape"][:-1]
+        set_data(sc, gen_signal(rng, lead, n, False))
+        sc.pop("NW", None)
+        sc.pop("layout", None)
+        sc["Fs"] = float(fs).hex()
+        sc["BW"] = float(bw).hex()
+        sc["NFFT"] = rng.choice([None, n, n + 3])
+        sc["bw_tie"] = "k=%d/%s" % (k, ("tie", "below", "above")[mode])
+        nw_lo, nw_hi = k / 2.0, (k + 1) / 2.0
+        ok = True
+        for nw in (nw_lo, nw_hi):
+            t = dict(sc)
+            t.pop("BW")
+            t["NW"] = float(nw).hex()
+            ok = ok and dpss_ok(t)
+        if ok:
+            return sc
+    return sc
+
+
 def force_coherent(rng, sc):
     """adaptive weights on channels that are filtered copies of one signal (differently coloured, so each
     channel gets its own adaptive weights, yet almost perfectly coherent): the positive-semidefiniteness
@@ -811,7 +868,7 @@ def klass(sc):
         sc.get("sides", "default"), "lead%d" % (len(sc["shape"]) - 1),
         ("/adaptive" if sc.get("adaptive") else "") + ("/" + sc["layout"] if sc.get("layout") else "")
         + ("/sibling:" + sc["sibling"] if sc.get("sibling") else "")
-        + ("/" + sc["dtype"] if sc.get("dtype") else "")
+        + ("/" + sc["dtype"] if sc.get("dtype") else "") + ("/bw-tie:" + sc["bw_tie"] if sc.get("bw_tie") else "")
         + ("/parity:" + sc["parity_cell"] if sc.get("parity_cell") else "")
         + ("/via_get_spectra" if sc.get("via_get_spectra") else ""))
 
